@@ -8,9 +8,11 @@ From Blue Require Import Crash.Props_C02.
 Check C02_crash_safe : forall c, reach c -> c_v c = None -> exists s', run (fst (fst (open_prog (c_fs c)))) (c_fs c) = (s', None) /\ snd (open_prog (c_fs c)) = true /\ Run s' (snd (fst (open_prog (c_fs c)))) /\ exists ch, sub ch (c_fly c) /\ forall e, In e (all_entries (snd (fst (open_prog (c_fs c))))) <-> In e (concat (c_ack c) ++ concat ch).
 Check C02_crash_models_covered : forall s, cut s (image_a s) /\ cut s (image_b s).
 Check C02_open_store_contents : forall c v, reach c -> c_v c = Some v -> Run (c_fs c) v /\ exists ch, sub ch (c_fly c) /\ forall e, In e (all_entries v) <-> In e (concat (c_ack c) ++ concat ch).
+Check C02_sequence_numbers_fresh : forall c v, reach c -> c_v c = Some v -> forall e, In e (all_entries v) -> ets e < v_seq v + 1.
 Check C02_recovery_returns_image : forall c, reach c -> c_v c = None -> forall e, In e (disk_entries (c_fs c)) <-> In e (all_entries (snd (fst (open_prog (c_fs c))))).
 Check C02_reads_newest_recovered_outside_known : forall (st : store) (E : list entry) k, wf_version (ver st) -> Ordered st -> (forall e, In e (Lsm.Ordered.all_entries st) <-> In e E) -> match load st k (seq st) with | Some e => In e E /\ ek e = k /\ (forall e', In e' E -> ek e' = k -> ets e' <= seq st -> ets e' <= ets e) | None => forall e', In e' E -> ek e' = k -> seq st < ets e' end.
 Check C02_reads_newest_recovered_refuted : exists (st : store) k e e', wf_version (ver st) /\ load st k (seq st) = Some e /\ In e' (Lsm.Ordered.all_entries st) /\ ek e' = k /\ ets e' <= seq st /\ ets e < ets e'.
 Check C02_fault_surfaced : forall p k s, run p s = (fst (run p s), None) -> (k < length p)%nat -> ~ dropped (snd (nth k p (CSync NMani, Must))) -> snd (run_prog p (Some k) O s None) <> None.
 Check C02_only_trash_renames_dropped : forall c m, dropped m -> (forall v s o, In (c, m) (fst (op_prog v s o)) -> exists x, c = CRename (NSst x) (NTrashSst x)) /\ (forall s, In (c, m) (fst (fst (open_prog s))) -> exists x, c = CRename (NSst x) (NTrashSst x)).
-Check C02_fault_leaves_recoverable_partial : forall s v o k, Run s v -> accepted v o -> run (fst (op_prog v s o)) s = (fst (run (fst (op_prog v s o)) s), None) -> (k < length (fst (op_prog v s o)))%nat -> stops (snd (nth k (fst (op_prog v s o)) (CSync NMani, Must))) -> Safe (fst (run_prog (fst (op_prog v s o)) (Some k) O s None)) (all_entries v) (op_batch v o).
+Check C02_fault_leaves_recoverable : forall s v o f k, Run s v -> accepted v o -> Safe (fst (run_prog (firstn k (fst (op_prog v s o))) f O s None)) (all_entries v) (op_batch v o).
+Check C02_recovery_fault_leaves_recoverable : forall c f k, reach c -> c_v c = None -> exists ch, sub ch (c_fly c) /\ Safe (fst (run_prog (firstn k (fst (fst (open_prog (c_fs c))))) f O (c_fs c) None)) (concat (c_ack c) ++ concat ch) None.
